@@ -377,6 +377,37 @@ func c08Run(c *engine.Ctx) {
 			geoms = append(geoms, mp)
 		}
 	}
+	for _, l := range []geom.Layout{geom.XY, geom.XYZ, geom.XYM} {
+		geoms = append(geoms, deepCollections(l, 9)...)
+	}
+	// every coordinate count 1..70 and around powers of two, with the strict extremes in the
+	// first and the last coordinate (unrolled or vectorised folds lose heads and tails)
+	counts := []int{}
+	for n := 1; n <= 70; n++ {
+		counts = append(counts, n)
+	}
+	counts = append(counts, 127, 128, 129, 255, 256, 257, 1023, 1024, 1025)
+	for _, l := range ref.LayoutsAll {
+		for _, n := range counts {
+			for variant := 0; variant < 2; variant++ {
+				g := ref.NewLine(ref.LineString, l, n, wobble())
+				if variant == 1 {
+					pat := make([]int, n)
+					for i := range pat {
+						pat[i] = 1
+					}
+					g = ref.NewMultiPoint(l, pat, wobble())
+				}
+				for d := 0; d < l.Stride(); d++ {
+					g.C1[n-1][d] = ref.F(1e6 + float64(d))
+					if n > 1 {
+						g.C1[0][d] = ref.F(-1e6 - float64(d))
+					}
+				}
+				geoms = append(geoms, g)
+			}
+		}
+	}
 	c.Note("geometries", len(geoms))
 	c.Parallel(len(geoms), func(i int) { c08Exec(c, c08Case{Mode: "geom", G: geoms[i]}, nil) })
 
